@@ -86,6 +86,14 @@ def check_case(drv, rng, stats, given=None):
         task = rng.choice(["classification", "classification", "regression"])
         X, y, quant, qual = selgen.gen_frame(rng, task)
         cfg = selgen.gen_config(rng, task, quant, qual, has_inf=bool(quant) and bool(np.isinf(X[quant].to_numpy(dtype=float)).any()))
+        if rng.random() < 0.12:
+            # a crafted correlation chain A - B - C with the threshold between assoc(A, C) and min(assoc(A, B), assoc(B, C))
+            ch = selgen.gen_chain(rng, task, cfg["names"]["quant_filter"])
+            if ch is not None:
+                X, y, quant, qual, th = ch
+                cfg["thresh_corr"] = th
+                cfg["n_best"] = len(quant)
+                stats["chain_cases"] = stats.get("chain_cases", 0) + 1
     Xb, yb = X.copy(deep=True), y.copy(deep=True)
     fails = []
     case = {"task": task, "cfg": {k: v for k, v in cfg.items() if k != "kw"}, "X": {c: [None if (isinstance(v, float) and math.isnan(v)) else v for v in X[c].tolist()] for c in X.columns},
